@@ -17,7 +17,7 @@ def lattice_unit(u) -> Stats:
         lr = LatticeRun(n, v, comp, Checker(), st, tag)
         before = len(st.outcomes)
         if "fresh" in modes:
-            lr.fresh(keep_objects=True)
+            lr.fresh(keep_objects=True, Ks=None if n <= 4 else list(A.layered_knowledge(n, 1))[:30])
         if "euler" in modes:
             lr.euler()
         d = 3 if "dirty3" in modes else 2 if "dirty2" in modes else 1 if "dirty1" in modes else 0
@@ -95,6 +95,12 @@ def units(run: Run):
     for i, g in enumerate(sam4):
         if i % (70 if quick else 12) == seed % (70 if quick else 12):
             us.append(("lat", 4, f"sam#{i}", g, ("sam_apx_1",), ("euler", "dirty1")))
+    # larger player counts: dirty runs (incl. alt-value operations) from knowledge sets near minimal / full
+    for n in ((5, 6) if quick else (5, 6, 7)):
+        samples = A.larger_n_samples(n) if n >= 6 else [("pairgraph", A.shifted(g, A.SHIFT_LONG[:5])) for g in A.a5_pair_closure_reps()[seed % 11::11]]
+        for tag, gv in samples[:2 if quick else 4]:
+            for comp in (FAST[:3] if n == 5 else FAST[1:3]):
+                us.append(("lat", n, f"n{n}:{tag}", gv, (comp,), ("fresh", "dirty1")))
     # env level
     g3 = A.a3_sa()
     for i, g in enumerate(g3):
@@ -116,7 +122,7 @@ def cost(u) -> float:
     if u[0] == "env":
         return (2000 if not (len(u) > 6 and u[6]) else 100) if u[1] == 4 else 1
     w = {"superadditive": 3, "superadditive_cached": 1.5, "sam_apx_1": 3, "sam_apx_10": 10, "sam_apx_100": 5, "sam_apx_1000": 50}
-    return (1 if u[1] == 3 else 1000) * sum(w[c] for c in u[4])
+    return (1 if u[1] == 3 else 1000 if u[1] == 4 else 300 * (u[1] - 4)) * sum(w[c] for c in u[4])
 
 
 def run(run: Run) -> None:
@@ -126,7 +132,7 @@ def run(run: Run) -> None:
                 "(table must equal the canonical one bit for bit after every compute), BFS over dirty runs of <= d operations from "
                 "{reveal, unreveal, bulk reset, set, unset} closed by compute, compute twice == once; env level: BFS to closure over step / unstep of ANY revealed action / reset; "
                 "every observable equals that of a fresh env with the same revealed set. non-trivial = distinct clean tables / undo pairs")
-    run.bounds = {"n": [3, 4], "dirty_run": {"quick": "1 (2 on 1/8 of the games)", "thorough": "2 (3 on 1/16)"}[run.tier],
+    run.bounds = {"n": [3, 4, 5, 6] if run.quick else [3, 4, 5, 6, 7], "dirty_run": {"quick": "1 (2 on 1/8 of the games)", "thorough": "2 (3 on 1/16)"}[run.tier],
                   "games": "1/3 of A3-ANY and A3-SA per seed (quick) / all (thorough)", "units": len(us)}
     run.assumptions = ["sam_apx_1000 is explored at n=3 on games over {0,1,2} without dirty runs (48 ms per compute)",
                        "snapshot/restore uses the public copy(); the Euler walk uses no restore at all"]
